@@ -49,6 +49,15 @@ Definition installed_filter (c : cfg) : option (list instr) :=
   | VTcp | VSack => if is_v6 c then None else Some (prog_of (raw_tcp4 (addr32 (c_target c)) (addr32 (c_local c)) (c_dport c) (c_sport c)))
   end.
 
+(** the SetPacketFilter calls the model assumes of each entry point, in order: (type, Src = target endpoint,
+    Dst = local endpoint); compared with the source on every run (Generated/FilterUse.v) *)
+Definition model_filter_use (v : variant) : list (ftype * bool * bool) :=
+  match v with
+  | VIcmp | VUdp => [(FT_ICMP, false, false)]
+  | VTcp => [(FT_TCP, true, true)]
+  | VSack => [(FT_SYNACK, true, false); (FT_TCP, true, true)]
+  end.
+
 Definition filter_passes (c : cfg) (frame : bytes) : option bool :=
   match installed_filter c with Some p => Some (accepts p (ether frame)) | None => None end.
 
